@@ -103,3 +103,119 @@ theorem T_diag_partial_exact_nl (al ph sa sp : ℝ → ℝ) (c2a c2p x0 : ℝ) (
     ring
 
 end EpgVerif.Props.C03
+
+/-! ### the diagonal pair over whole programs -/
+namespace EpgVerif.Props.C03
+open EpgVerif Diff Ex Finset EpgVerif.Props.C02 EpgVerif.Props.C04
+
+variable {κ : Type}
+
+/-- a step seen along ONE variable x: state update `S`, first-partial update `J` at parameter value x (the formula of
+    `_apply_order1`), and what `_apply_order2` stores under (a, a) at x0 -/
+structure Step1 (x0 : ℝ) (κ : Type) where
+  S : ℝ → (κ → PS ℂ) → (κ → PS ℂ)
+  J : ℝ → (κ → PS ℂ) → (κ → PS ℂ) → (κ → PS ℂ)
+  Hn : (κ → PS ℂ) → (κ → PS ℂ) → (κ → PS ℂ) → (κ → PS ℂ)
+  first : ∀ (s Ja : ℝ → κ → PS ℂ), (∀ k, PSHasDeriv (fun x => s x k) (Ja x0 k) x0) →
+      ∀ k, PSHasDeriv (fun x => S x (s x) k) (J x0 (s x0) (Ja x0) k) x0
+  second : ∀ (s Ja : ℝ → κ → PS ℂ) (H : κ → PS ℂ), (∀ k, PSHasDeriv (fun x => s x k) (Ja x0 k) x0) →
+      (∀ k, PSHasDeriv (fun x => Ja x k) (H k) x0) →
+      ∀ k, PSHasDeriv (fun x => J x (s x) (Ja x) k) (Hn (s x0) (Ja x0) H k) x0
+
+structure St1 (κ : Type) where
+  s : ℝ → κ → PS ℂ
+  Ja : ℝ → κ → PS ℂ
+  H : κ → PS ℂ
+
+def run1 {x0 : ℝ} : List (Step1 x0 κ) → St1 κ → St1 κ
+  | [], st => st
+  | p :: rest, st =>
+    run1 rest ⟨fun x => p.S x (st.s x), fun x => p.J x (st.s x) (st.Ja x), p.Hn (st.s x0) (st.Ja x0) st.H⟩
+
+/-- **C03 for whole programs, diagonal entries**: "Ja = ∂s/∂a and H = ∂²s/∂a²" is kept by every program -/
+theorem hessian_diag_exact {x0 : ℝ} (prog : List (Step1 x0 κ)) (st : St1 κ)
+    (h1 : ∀ k, PSHasDeriv (fun x => st.s x k) (st.Ja x0 k) x0) (h2 : ∀ k, PSHasDeriv (fun x => st.Ja x k) (st.H k) x0) :
+    (∀ k, PSHasDeriv (fun x => (run1 prog st).s x k) ((run1 prog st).Ja x0 k) x0)
+    ∧ (∀ k, PSHasDeriv (fun x => (run1 prog st).Ja x k) ((run1 prog st).H k) x0) := by
+  induction prog generalizing st with
+  | nil => exact ⟨h1, h2⟩
+  | cons p rest ih =>
+    exact ih _ (p.first st.s st.Ja h1) (p.second st.s st.Ja st.H h1 h2)
+
+section shifts
+variable [AddCommGroup κ]
+
+def step1Shift (x0 : ℝ) (g : κ) : Step1 x0 κ where
+  S := fun _ f => shiftF g f
+  J := fun _ _ ja => shiftF g ja
+  Hn := fun _ _ h => shiftF g h
+  first := by
+    intro s Ja h k
+    obtain ⟨a1, _, _⟩ := h (k - g)
+    obtain ⟨_, b2, _⟩ := h (k + g)
+    obtain ⟨_, _, c3⟩ := h k
+    exact ⟨a1, b2, c3⟩
+  second := by
+    intro s Ja H _ h k
+    obtain ⟨a1, _, _⟩ := h (k - g)
+    obtain ⟨_, b2, _⟩ := h (k + g)
+    obtain ⟨_, _, c3⟩ := h k
+    exact ⟨a1, b2, c3⟩
+
+end shifts
+
+/-- an RF pulse whose flip angle and phase are (non-linear) functions of the variable -/
+noncomputable def step1T (x0 : ℝ) (a : Var) (al ph sa sp : ℝ → ℝ) (c2a c2p : ℝ)
+    (hal : ∀ x, HasDerivAt al (sa x) x) (hph : ∀ x, HasDerivAt ph (sp x) x)
+    (hsa : HasDerivAt sa c2a x0) (hsp : HasDerivAt sp c2p x0) : Step1 x0 κ where
+  S := fun x f k => PS.mmul (fun i j => eval (envOf [((al x : ℝ) : ℂ), ((ph x : ℝ) : ℂ)]) (Coeff.T.mat i j)) (f k)
+  J := fun x f ja k =>
+    PS.mmul (fun i j => eval (envOf [((al x : ℝ) : ℂ), ((ph x : ℝ) : ℂ)]) (Coeff.T.mat i j)) (ja k)
+      + (((sa x : ℝ) : ℂ) • PS.mmul (fun i j => eval (envOf [((al x : ℝ) : ℂ), ((ph x : ℝ) : ℂ)]) (d 0 (Coeff.T.mat i j))) (f k)
+        + ((sp x : ℝ) : ℂ) • PS.mmul (fun i j => eval (envOf [((al x : ℝ) : ℂ), ((ph x : ℝ) : ℂ)]) (d 1 (Coeff.T.mat i j))) (f k))
+  Hn := fun f ja h k =>
+    let env := fun x : ℝ => envOf [((al x : ℝ) : ℂ), ((ph x : ℝ) : ℂ)]
+    let E := fun (f : Ex → Ex) (i j : Nat) => eval (env x0) (f (Coeff.T.mat i j))
+    let d0 : PS ℂ → PS ℂ := fun X => PS.mmul (E id) X
+    let d1 : Param → PS ℂ → PS ℂ := fun p X => if p = "alpha" then PS.mmul (E (d 0)) X else PS.mmul (E (d 1)) X
+    let d2 : PPair → PS ℂ → PS ℂ := fun pp X =>
+      if pp = ("alpha", "alpha") then PS.mmul (E (fun e => d 0 (d 0 e))) X
+      else if pp = ("alpha", "phi") then PS.mmul (E (fun e => d 1 (d 0 e))) X
+      else PS.mmul (E (fun e => d 1 (d 1 e))) X
+    let op : DOp ℂ (PS ℂ) :=
+      { derive0 := d0, derive1 := d1, derive2 := d2,
+        order1 := [(a, [("alpha", ((sa x0 : ℝ) : ℂ)), ("phi", ((sp x0 : ℝ) : ℂ))])],
+        order2 := [((a, a), [("alpha", (c2a : ℂ)), ("phi", (c2p : ℂ))])],
+        auto := false, P2 := [("alpha", "alpha"), ("alpha", "phi"), ("phi", "phi")] }
+    Diff.val (applyOrder2 (modCar (K := ℂ)) op (f k) [(a, ja k)] [((a, a), h k)]) (a, a)
+  first := by
+    intro s Ja h k
+    let env : ℝ → Nat → ℂ := fun x => envOf [((al x : ℝ) : ℂ), ((ph x : ℝ) : ℂ)]
+    let c : Nat → ℂ := fun j => match j with | 0 => ((sa x0 : ℝ) : ℂ) | 1 => ((sp x0 : ℝ) : ℂ) | _ => 0
+    have henv : ∀ j, HasDerivAt (fun x => env x j) (c j) x0 := by
+      intro j
+      match j with
+      | 0 => simpa [env, envOf, c] using (hal x0).ofReal_comp
+      | 1 => simpa [env, envOf, c] using (hph x0).ofReal_comp
+      | (n + 2) => simpa [env, envOf, c] using hasDerivAt_const x0 (0 : ℂ)
+    have hc : ∀ j, 2 ≤ j → c j = 0 := by
+      intro j hj
+      match j with
+      | 0 => omega
+      | 1 => omega
+      | (n + 2) => rfl
+    have hcr : ∀ j, (starRingEnd ℂ) (c j) = c j := by
+      intro j
+      match j with
+      | 0 => simp [c]
+      | 1 => simp [c]
+      | (n + 2) => simp [c]
+    have hm := mat_step Coeff.T.mat env c 2 x0 henv hc hcr (fun i j => rotation_defined _ i j) (fun x => s x k) (Ja x0 k) (h k)
+    rw [psSum_two] at hm
+    exact hm
+  second := by
+    intro s Ja H h1 h2 k
+    exact T_diag_partial_exact_nl al ph sa sp c2a c2p x0 a (hal x0) (hph x0) hsa hsp
+      (fun x => s x k) (fun x => Ja x k) (H k) (h1 k) (h2 k)
+
+end EpgVerif.Props.C03
